@@ -6,7 +6,9 @@ import (
 	"encoding/json"
 	"fmt"
 	"os"
+	"sort"
 	"strings"
+	"sync"
 	"time"
 
 	"github.com/innovationb1ue/RedisGO/config"
@@ -28,33 +30,86 @@ func pubsubStall(seed int64, want map[string]bool, enc *json.Encoder) {
 	if os.Getenv("VERIF_TIER") == "thorough" {
 		pauses = append(pauses, 2600*time.Millisecond, 6500*time.Millisecond, 11*time.Second)
 	}
+	// last round: the slow subscriber does not read on, it CLOSES after 400 ms: the blocked write fails, it is pruned, the other four are counted and served
+	pauses = append(pauses, 400*time.Millisecond)
 	for r, pause := range pauses {
+		closes := r == len(pauses)-1
+		alive, first := 5, 0
 		rep := concReport{Scenario: "pubsub-stall", Seed: seed + int64(r), Goroutines: 7, Shards: 1024, Result: "ok"}
 		config.Configures.ShardNum = 1024
 		mgr := server.NewManager(config.Configures)
 		ctx, cancel := context.WithCancel(context.Background())
 		pub := newSconn(ctx, mgr)
 		const nsub = 5
+		// the observed history, in real-time order, for the Lean model's verdict (driver engine PSH, lean/RedisGoModel/Driver/PsSlow.lean):
+		// sub:<i> confirmation read · stall:<i> / resume:<i> / close:<i> the client stops reading / reads again / closes · ps:<msg> PUBLISH written ·
+		// pe:<msg>:<n> its reply :n read · holds:<i>:<msg>,... what subscriber i holds at the end, in order of arrival
+		var hmu sync.Mutex
+		var hist []string
+		note := func(ev string) { hmu.Lock(); hist = append(hist, ev); hmu.Unlock() }
+		var msgs []string
 		subs := make([]*sconn, nsub)
 		for i := range subs {
 			subs[i] = newSconn(ctx, mgr)
 			subs[i].c.Write(encCmd("SUBSCRIBE", "stall"))
 			if st := subs[i].waitFor([]byte(":1\r\n"), 2*time.Second); st != "open" {
 				rep.Result, rep.Detail = "invariant", fmt.Sprintf("subscriber %d got no acknowledgement (%s)", i, st)
+			} else {
+				note(fmt.Sprintf("sub:%d", i))
 			}
 			subs[i].take()
 		}
 		publish := func(msg string, wait time.Duration) (string, string) {
 			pub.c.SetWriteDeadline(time.Now().Add(2 * time.Second))
+			msgs = append(msgs, msg)
+			note("ps:" + msg)
 			pub.c.Write(encCmd("PUBLISH", "stall", msg))
 			st := pub.waitFor([]byte("\r\n"), wait)
-			return string(pub.take()), st
+			reply := string(pub.take())
+			var cnt int
+			if _, err := fmt.Sscanf(reply, ":%d\r\n", &cnt); err == nil && st == "open" {
+				note(fmt.Sprintf("pe:%s:%d", msg, cnt))
+			}
+			return reply, st
+		}
+		// what every subscriber holds, in order of arrival
+		holdings := func() {
+			for i, s := range subs {
+				type at struct {
+					pos int
+					msg string
+				}
+				var found []at
+				s.mu.Lock()
+				b := append([]byte(nil), s.buf.Bytes()...)
+				s.mu.Unlock()
+				for _, m := range msgs {
+					frame := []byte(fmt.Sprintf("$%d\r\n%s\r\n", len(m), m))
+					for off := 0; ; {
+						j := bytes.Index(b[off:], frame)
+						if j < 0 {
+							break
+						}
+						found = append(found, at{off + j, m})
+						off += j + len(frame)
+					}
+				}
+				sort.Slice(found, func(a, b int) bool { return found[a].pos < found[b].pos })
+				names := make([]string, len(found))
+				for k, f := range found {
+					names[k] = f.msg
+				}
+				note(fmt.Sprintf("holds:%d:%s", i, strings.Join(names, ",")))
+			}
 		}
 		// everyone holds exactly `n` copies of msg (checked after the stream went quiet)
 		received := func(msg string, who string) string {
 			frame := []byte(fmt.Sprintf("$%d\r\n%s\r\n", len(msg), msg))
 			var bad []string
 			for i, s := range subs {
+				if i < first {
+					continue
+				}
 				s.waitFor(frame, 1500*time.Millisecond)
 				s.mu.Lock()
 				n := bytes.Count(s.buf.Bytes(), frame)
@@ -78,8 +133,8 @@ func pubsubStall(seed int64, want map[string]bool, enc *json.Encoder) {
 				return
 			}
 			reply, st := publish(msg, wait)
-			if st != "open" || reply != fmt.Sprintf(":%d\r\n", nsub) {
-				rep.Result, rep.Detail = "invariant", fmt.Sprintf("%s: PUBLISH stall %s answered %q (%s); %d connections are subscribed and none has left", who, msg, reply, st, nsub)
+			if st != "open" || reply != fmt.Sprintf(":%d\r\n", alive) {
+				rep.Result, rep.Detail = "invariant", fmt.Sprintf("%s: PUBLISH stall %s answered %q (%s); %d connections are subscribed and reachable", who, msg, reply, st, alive)
 				return
 			}
 			if d := received(msg, who); d != "" {
@@ -91,10 +146,22 @@ func pubsubStall(seed int64, want map[string]bool, enc *json.Encoder) {
 		if rep.Result == "ok" {
 			subs[0].paused.Store(true) // its reader is already inside Read: it takes one more message, then stops
 			step("primer", 2*time.Second, "the slow subscriber takes its last message")
-			go func() { time.Sleep(pause); subs[0].paused.Store(false) }()
-			step("m1", pause+4*time.Second, fmt.Sprintf("subscriber 0 did not read for %v while this was published, then read on", pause))
-			step("m2", 2*time.Second, "after the pause (everyone reading)")
+			note("stall:0")
+			if !closes {
+				go func() { time.Sleep(pause); note("resume:0"); subs[0].paused.Store(false) }()
+				step("m1", pause+4*time.Second, fmt.Sprintf("subscriber 0 did not read for %v while this was published, then read on", pause))
+				step("m2", 2*time.Second, "after the pause (everyone reading)")
+			} else {
+				alive, first = nsub-1, 1
+				go func() { time.Sleep(pause); note("close:0"); subs[0].c.Close(); subs[0].paused.Store(false) }()
+				step("m1", pause+4*time.Second, fmt.Sprintf("subscriber 0 did not read for %v while this was published, then closed its connection", pause))
+				step("m2", 2*time.Second, "after the slow subscriber closed")
+			}
 		}
+		holdings()
+		hmu.Lock()
+		rep.Hist = strings.Join(hist, " ")
+		hmu.Unlock()
 		cancel()
 		pub.c.Close()
 		for _, s := range subs {
